@@ -1,7 +1,8 @@
 ID = "C17"
 LEVEL = "proof"
 TAGS = ("C17",)
-CONTRACT_MODULES = ["contracts.geometry"]
+from props.common import ALL_CONTRACTS
+CONTRACT_MODULES = ALL_CONTRACTS
 FUNCTIONS = [
     "RectangularRegion.RectangularRegion.__init__",
     "RectangularRegion.RectangularRegion.containsPoint",
